@@ -68,6 +68,7 @@ type c06Case struct {
 	Tok    tokDesc  `json:"countersignature"`
 	Anchor int      `json:"trust_anchor"` // certificate of the signing chain held by the scheme's store: 0 root, 1 middle, 2 leaf
 	Dyn    string   `json:"dyn_store"`    // history only: what the tsa store "dyn" holds at this call: a, b, empty, fail
+	Entry  string   `json:"entry_point"`  // namespace histories: "oci:<statement>" (Verify) or "blob:<statement>" (VerifyBlob); the policy fields above are those of that statement
 	Hist   string   `json:"history"`      // history only: "<sequence>#<step>" — same verifier instance as the previous steps
 	sess   *session
 	// observation
@@ -150,7 +151,9 @@ type session struct {
 	store     *MockStore
 	rv        *tsRev
 	v         notation.Verifier
-	doc       *trustpolicy.OCIDocument
+	doc       any                             // the policy document(s) the verifier was built from
+	vb        notation.BlobVerifier           // namespace histories: the same instance, as a blob verifier
+	stmts     map[string]*c06Case             // namespace histories: entry point -> policy content (Stores, Opt, Level, AExp, ATs)
 	opts      *notation.VerifierVerifyOptions // non-nil: every step passes this very object (same maps)
 	lastToken []byte
 }
@@ -159,7 +162,7 @@ type session struct {
 // (annotations map), the envelope bytes, the verify options (plugin-config and user-metadata maps), the trust policy
 // document (its slices and override map), the trustStores slice the document was built from, and the trust store's
 // certificate slices (order, identity and content of every certificate). The library may only read them.
-func frame(desc ocispec.Descriptor, env []byte, opts *notation.VerifierVerifyOptions, doc *trustpolicy.OCIDocument, stores []string, store *MockStore) map[string]string {
+func frame(desc ocispec.Descriptor, env []byte, opts *notation.VerifierVerifyOptions, doc any, stores []string, store *MockStore) map[string]string {
 	j := func(v any) string { return string(must(json.Marshal(v))) }
 	f := map[string]string{
 		"target descriptor":                                j(desc),
@@ -200,7 +203,7 @@ func newStore(world *tsaWorld) *MockStore {
 	return store
 }
 
-func newVerifier(c *c06Case, store *MockStore, rv *tsRev) (notation.Verifier, *trustpolicy.OCIDocument) {
+func newVerifier(c *c06Case, store *MockStore, rv *tsRev) (notation.Verifier, any) {
 	natural := map[string]string{"strict": "Enforce", "permissive": "Log", "audit": "Log"}[c.Level]
 	override := map[trustpolicy.ValidationType]trustpolicy.ValidationAction{trustpolicy.TypeRevocation: trustpolicy.ActionSkip}
 	act := map[string]trustpolicy.ValidationAction{"Enforce": trustpolicy.ActionEnforce, "Log": trustpolicy.ActionLog}
@@ -216,6 +219,47 @@ func newVerifier(c *c06Case, store *MockStore, rv *tsRev) (notation.Verifier, *t
 		panic(fmt.Sprintf("c06: verifier construction: %v", err))
 	}
 	return v, doc
+}
+
+const otherRef = "reg.example/other@sha256:9834876dcfb05cb167a5c24953eba58c4ac89b1adf57f28f2f9d09af107ee8f0"
+
+func sigVerification(c *c06Case) trustpolicy.SignatureVerification {
+	natural := map[string]string{"strict": "Enforce", "permissive": "Log", "audit": "Log"}[c.Level]
+	override := map[trustpolicy.ValidationType]trustpolicy.ValidationAction{trustpolicy.TypeRevocation: trustpolicy.ActionSkip}
+	act := map[string]trustpolicy.ValidationAction{"Enforce": trustpolicy.ActionEnforce, "Log": trustpolicy.ActionLog}
+	if c.AExp != natural {
+		override[trustpolicy.TypeExpiry] = act[c.AExp]
+	}
+	if c.ATs != natural {
+		override[trustpolicy.TypeAuthenticTimestamp] = act[c.ATs]
+	}
+	return trustpolicy.SignatureVerification{VerificationLevel: c.Level, Override: override, VerifyTimestamp: trustpolicy.TimestampOption(c.Opt)}
+}
+
+// newNSVerifier builds ONE verifier holding an OCI document (statements p: scope of TestRef, q: scope of otherRef)
+// and a blob document whose statements carry the SAME names p and q with different content.
+func newNSVerifier(sess *session, store *MockStore) {
+	oci := &trustpolicy.OCIDocument{Version: "1.0"}
+	blob := &trustpolicy.BlobDocument{Version: "1.0"}
+	for _, name := range []string{"p", "q"} {
+		if st := sess.stmts["oci:"+name]; st != nil {
+			scope := TestScope
+			if name == "q" {
+				scope = "reg.example/other"
+			}
+			oci.TrustPolicies = append(oci.TrustPolicies, trustpolicy.OCITrustPolicy{Name: name, RegistryScopes: []string{scope},
+				SignatureVerification: sigVerification(st), TrustStores: st.Stores, TrustedIdentities: []string{"*"}})
+		}
+		if st := sess.stmts["blob:"+name]; st != nil {
+			blob.TrustPolicies = append(blob.TrustPolicies, trustpolicy.BlobTrustPolicy{Name: name,
+				SignatureVerification: sigVerification(st), TrustStores: st.Stores, TrustedIdentities: []string{"*"}})
+		}
+	}
+	v, err := verifier.NewVerifierWithOptions(store, verifier.VerifierOptions{OCITrustPolicy: oci, BlobTrustPolicy: blob, RevocationTimestampingValidator: sess.rv})
+	if err != nil {
+		panic(fmt.Sprintf("c06: verifier construction (two documents): %v", err))
+	}
+	sess.v, sess.vb, sess.doc = v, v, []any{oci, blob}
 }
 
 // ---------- envelope surgery ----------
@@ -634,11 +678,15 @@ func runC06(a *Args) error {
 			}
 			// --- policy and verifier (a history reuses one instance)
 			var v notation.Verifier
-			var doc *trustpolicy.OCIDocument
+			var doc any
 			opts := &notation.VerifierVerifyOptions{PluginConfig: map[string]string{"cfg": "1", "other": "2"}, UserMetadata: map[string]string{"io.verif/c06": "frame"}}
 			if c.sess != nil {
 				if c.sess.v == nil {
-					c.sess.v, c.sess.doc = newVerifier(c, store, rv)
+					if c.sess.stmts != nil {
+						newNSVerifier(c.sess, store)
+					} else {
+						c.sess.v, c.sess.doc = newVerifier(c, store, rv)
+					}
 				}
 				v, doc = c.sess.v, c.sess.doc
 				if c.sess.opts != nil {
@@ -648,13 +696,23 @@ func runC06(a *Args) error {
 				v, doc = newVerifier(c, store, rv)
 			}
 			opts.ArtifactReference, opts.SignatureMediaType = TestRef, c.Format
+			if c.Entry == "oci:q" {
+				opts.ArtifactReference = otherRef
+			}
 			frame0 := frame(desc, env, opts, doc, c.Stores, store)
 			before := time.Now()
 			var outcome *notation.VerificationOutcome
 			var verr2 error
 			panicked := func() (p any) {
 				defer func() { p = recover() }()
-				outcome, verr2 = v.Verify(context.Background(), desc, env, *opts)
+				switch {
+				case strings.HasPrefix(c.Entry, "blob:"):
+					gen := func(digest.Algorithm) (ocispec.Descriptor, error) { return desc, nil }
+					outcome, verr2 = c.sess.vb.VerifyBlob(context.Background(), gen, env, notation.BlobVerifierVerifyOptions{SignatureMediaType: c.Format,
+						PluginConfig: opts.PluginConfig, UserMetadata: opts.UserMetadata, TrustPolicyName: strings.TrimPrefix(c.Entry, "blob:")})
+				default:
+					outcome, verr2 = v.Verify(context.Background(), desc, env, *opts)
+				}
 				return nil
 			}()
 			after := time.Now()
@@ -760,7 +818,7 @@ func runC06(a *Args) error {
 				CList(certTerms), CStrList(c.Stores), optTerm, CList(dbTerms), tokTerm, c.AExp, c.ATs)
 			obs := CApp("mk_obs", expTerm, tsTerm, CBool(c.Rejected))
 			term := CApp("mk_case", CN(my), in, obs)
-			key := fmt.Sprintf("%v|%v|%v|%v|%v|%v|%v|%v|%v|%v|%+v|%v|%v|%v", c.Win, c.SigH, c.ExpH, c.Stores, c.Opt, c.AExp, c.ATs, c.SA, c.Format, c.Level, c.Tok, c.Anchor, c.Dyn, c.Hist)
+			key := fmt.Sprintf("%v|%v|%v|%v|%v|%v|%v|%v|%v|%v|%+v|%v|%v|%v", c.Win, c.SigH, c.ExpH, c.Stores, c.Opt, c.AExp, c.ATs, c.SA, c.Format, c.Level, c.Tok, c.Anchor, c.Dyn, c.Hist+c.Entry)
 			nontriv := c.ObsExpiry != "passed" || c.ObsTs != "Passed" || c.Fam != "valid"
 			w.Add(my, term, c, key, nontriv)
 			w.Count("family", c.Fam)
